@@ -103,8 +103,13 @@ def run_case(case):
     kind, neq, nunk = case["kind"], case["neq"], case["nunk"]
     d = 0 if kind == "ode" else 2
     nv = L.nvar_of(kind, d)
-    names = ["u", "v"][:nunk]
-    eqkeys = list(names) if case["samekeys"] else [f"eq{i}" for i in range(neq)]
+    # dictionaries are matched by key, never by position: unknowns and equations are inserted in non-alphabetical
+    # order, and parallel dictionaries (weights, conditions, observations) in yet another order
+    names = ["w", "u"][:nunk]
+    eqkeys = list(names) if case["samekeys"] else [f"eq{i}" for i in range(neq)][::-1]
+
+    def reorder(d):
+        return dict(sorted(d.items())) if isinstance(d, dict) else d
     site = f"SystemLoss{'ODE' if kind == 'ode' else 'PDE'}/{kind}"
     nets_ = {n: L.make_u(kind, d, 1, deg=2, salt=3 + i) for i, n in enumerate(names)}
     u_dict = {n: nets_[n][0] for n in names}
@@ -128,12 +133,12 @@ def run_case(case):
         border = np.stack([L.points(2, nv, salt=f) for f in range(4)], axis=-1)
     batch = L.make_batch(kind, pts, border=border, obs=obs if any_obs else None)
     # weights
-    wd = 1.3 if case["wdyn"] == "scalar" else {k: 0.5 + 0.4 * i for i, k in enumerate(eqkeys)}
+    wd = 1.3 if case["wdyn"] == "scalar" else reorder({k: 0.5 + 0.4 * i for i, k in enumerate(eqkeys)})
     def wc(term, j0):
         if case["wcon"] == "scalar":
             return 0.6 + 0.1 * j0
         if case["wcon"] == "dict":
-            return {n: 0.3 + 0.25 * i + 0.1 * j0 for i, n in enumerate(names)}
+            return reorder({n: 0.3 + 0.25 * i + 0.1 * j0 for i, n in enumerate(names)})
         return None
     def form(w):
         if case.get("wform") != "array" or w is None:
@@ -141,7 +146,7 @@ def run_case(case):
         return {k: jnp.asarray(x) for k, x in w.items()} if isinstance(w, dict) else jnp.asarray(w)
     if kind == "ode":
         lw = jinns.loss.LossWeightsODEDict(dyn_loss=form(wd), initial_condition=form(wc("ic", 0)), observations=form(wc("obs", 1)))
-        ic = {n: ((0.3, jnp.asarray([0.2 * (i + 1)])) if has(n, "ic") else None) for i, n in enumerate(names)}
+        ic = reorder({n: ((0.3, jnp.asarray([0.2 * (i + 1)])) if has(n, "ic") else None) for i, n in enumerate(names)})
         loss = L.quiet(jinns.loss.SystemLossODE, u_dict=u_dict, dynamic_loss_dict=dyn, initial_condition_dict=ic, loss_weights=lw, params_dict=pd)
     else:
         lw = jinns.loss.LossWeightsPDEDict(dyn_loss=form(wd), norm_loss=None, boundary_loss=form(wc("bc", 2)), observations=form(wc("obs", 1)), initial_condition=form(wc("ic", 0)))
@@ -154,6 +159,9 @@ def run_case(case):
     total, terms = L.jit_eval(loss, pd, batch)
     total, terms = float(total), {k: float(x) for k, x in terms.items()}
     v = []
+    # eager evaluation (Python-level dict iteration order is only visible here: jit re-sorts pytree dictionaries)
+    etotal, eterms = loss.evaluate(pd, batch)
+    eterms = {k: float(x) for k, x in eterms.items()}
     # ---- oracle: dynamic part
     U = {n: L.jets(nets_[n][1], nets_[n][2], pts, [()])[()][0] for n in names}
     exp_dyn = 0.0
@@ -196,6 +204,9 @@ def run_case(case):
         elif not close(terms[k], exp[k]):
             kindv = "dynamic_term_is_not_the_weighted_sum_over_equations" if k == "dyn_loss" else "constraint_term_is_not_the_weighted_sum_of_single_loss_terms"
             v.append(V(site, kindv, f"{cfg}: {k} = {terms[k]} expected {exp[k]}"))
+    for k in exp:
+        if k in eterms and not close(eterms[k], exp[k]):
+            v.append(V(site, "eager_evaluation_differs_from_the_composition", f"{cfg}: {k} = {eterms[k]} expected {exp[k]} (jit: {terms.get(k)})"))
     if not close(total, sum(exp.values())):
         v.append(V(site, "total_is_not_the_sum_of_terms", f"{cfg}: {total} vs {sum(exp.values())}"))
     nz = sum(1 for x in exp.values() if x != 0)
